@@ -66,14 +66,17 @@ class G:
             rules.append(Rule(n, self.match_body(i)))
         # modifiers
         for rl in rules[1:]:
-            if not self.f1 and not isinstance(rl.body, (Seq, Choice, Lit, Re)):
-                continue
             if r.random() < self.pskip:
                 rl.skipws = r.choice([True, False])
                 self.used_features.add('skipws-mod')
             elif r.random() < self.pws:
                 rl.ws = r.choice([' ', ' \t', '\n ', ' \t\n', ' \t\r\n', '\r\n ', ' \r'])
                 self.used_features.add('ws-mod')
+            else:
+                continue
+            if not isinstance(rl.body, (Seq, Choice, Lit, Re)):
+                # the rule body is a repetition / optional / unordered group / rule reference
+                self.used_features.add('modifier-on-non-sequence-body')
         if r.random() < self.pcomment:
             rules.append(Rule('Comment', Re(r'//.*$') if r.random() < 0.7 else Re(r'/\*(.|\n)*?\*/')))
             self.used_features.add('comment')
